@@ -184,7 +184,7 @@ func ruleC14Swap(e *Env) {
 	}
 	sort.Strings(keys)
 	for _, k := range keys {
-		out := t[k]             // out(a,b) in scenario k
+		out := t[k]                 // out(a,b) in scenario k
 		rev := swapAB(t[mirror(k)]) // out(b,a): scenario mirror(k) with the operand names exchanged
 		construct := "lengths " + k
 		switch {
